@@ -714,6 +714,51 @@ def prepareBoundKey {σ : Type} (parse : Str → Option σ) (cur : Cursor σ) (s
 /-- schema-changing statements clear the cache -/
 def clear {σ : Type} (_ : Cursor σ) : Cursor σ := { cache := [] }
 
+/-! ### An integer bound into an integer column: text → `parse_literal` → sign → `coerce_value` -/
+
+inductive IntTy where
+  | smallint | integer | bigint
+  deriving DecidableEq, Repr
+
+def IntTy.min : IntTy → Int
+  | .smallint => -32768
+  | _ => -9223372036854775808
+
+def IntTy.max : IntTy → Int
+  | .smallint => 32767
+  | _ => 9223372036854775807
+
+/-- the literal the INSERT / UPDATE sees for the decimal text of `n`: the digits of `|n|` parse as
+an `Integer` when they fit an i64 and as a `Numeric` otherwise, then the sign is folded in.  (A
+`Numeric` is an f64; the only whole number beyond i64 reachable from an i64 is 2^63, which is
+exact, so the model keeps the exact value.) -/
+inductive NumLit where
+  | integer (i : Int)
+  | numeric (x : Int)
+  deriving DecidableEq, Repr
+
+def parseBound (n : Int) : NumLit :=
+  if n.natAbs ≤ 9223372036854775807 then .integer n else .numeric n
+
+inductive CoerceErr where
+  | outOfRange
+  deriving DecidableEq, Repr
+
+/-- `coerce_value` for the integer column types.  The f64 range test of the `Numeric` arms is
+`f >= i64::MIN as f64 && f <= i64::MAX as f64` (both ends inclusive; `i64::MAX as f64` is 2^63 and
+the cast saturates). -/
+def coerceInt : NumLit → IntTy → Except CoerceErr Int
+  | .integer i, .smallint => if -32768 ≤ i ∧ i ≤ 32767 then .ok i else .error .outOfRange
+  | .integer i, _ => .ok i
+  | .numeric x, .smallint => if -32768 ≤ x ∧ x ≤ 32767 then .ok x else .error .outOfRange
+  | .numeric x, _ =>
+    if -9223372036854775808 ≤ x ∧ x ≤ 9223372036854775808 then
+      .ok (if x ≤ 9223372036854775807 then x else 9223372036854775807)
+    else .error .outOfRange
+
+/-- bind the Python int `n` through `?` into a column of type `ty`, then read the column -/
+def bindReadInt (ty : IntTy) (n : Int) : Except CoerceErr Int := coerceInt (parseBound n) ty
+
 /-- `py_to_sqlvalue`'s classification of a Python value: bool is tested first (a Python bool is
 also an int), NaN and the infinities are refused -/
 inductive PyVal where
